@@ -24,7 +24,7 @@ U = ['a', 'b', '1', "'s'", '"q"', ' ', '\n', '\r\n', '\t', '\x0c', ' ', ',', ';
      'or', 'between', 'case', 'when', 'then', 'else', 'end', 'if', 'end if', 'for', 'end loop',
      'begin', 'as', 'in', 'values', 'over', 'join', 'on', 'order by', 'group by', 'having', 'limit',
      'union', 'insert', 'into', 'update', 'set', 'with', 'desc', 'null', 'not', 'create', 'table',
-     'declare', 'date', 'interval', 'day', 'f(', 'go', 'like']
+     'declare', 'date', 'interval', 'day', 'f(', 'go', 'like', 'mod', 'div']
 
 # focused drivers carved out of U (one more fragment of depth than U)
 D = {
@@ -34,7 +34,7 @@ D = {
            '*', 'desc', "'s'", ':=', ';', 'f('],
     'D3': ['a', '1', ' ', 'select', 'from', 'where', 'and', 'or', 'between', 'order by', 'group by',
            'having', 'limit', 'union', '=', '<', '+', '-', '*', ',', '(', ')', 'not', 'null', 'in',
-           'like', 'join', 'on', 'into', 'returning'],
+           'like', 'join', 'on', 'into', 'returning', 'mod', 'div', 'is'],
     'D4': ['a', '1', ' ', '\n', '\r\n', '\t', '--c\n', '/*c*/', '/*+h*/', '--+h\n', '# c\n', ',', '(',
            ')', ';', '=', 'select', 'from', '.', '+', "'s'"],
     'D5': ['a', '1', ' ', ',', '(', ')', 'insert', 'into', 'values', 'update', 'set', 'delete',
